@@ -86,6 +86,40 @@ func histories(tier string) []History {
 				Ops: []Op{{Ins: []int{0, 1, 2}}, {SetHead: ip(0)}, {Ins: []int{3, 4}}, {Ins: []int{0, 1, 2}}, {Stop: true}}},
 		)
 	}
+	maxGen := 3
+	if tier == "thorough" {
+		maxGen = 4
+	}
+	// generated: every block tree of up to 3 (quick) / 4 (thorough) blocks (difficulties {1,2,3}) whose total difficulties are
+	// pairwise distinct (no fork-choice coin), every arrival order, one block per call, then Stop
+	for n := 1; n <= maxGen; n++ {
+		for si, sh := range chaintree.Shapes(n, []int64{1, 2, 3}) {
+			td := make([]int64, n)
+			distinct := true
+			seen := map[int64]bool{}
+			for i := 0; i < n; i++ {
+				td[i] = sh.Diff[i]
+				if sh.Parent[i] >= 0 {
+					td[i] += td[sh.Parent[i]]
+				}
+				if seen[td[i]] {
+					distinct = false
+				}
+				seen[td[i]] = true
+			}
+			if !distinct {
+				continue
+			}
+			for oi, order := range chaintree.Orders(sh) {
+				h := History{Name: fmt.Sprintf("G%d-%d-%d", n, si, oi), Parent: sh.Parent, Diff: sh.Diff}
+				for _, i := range order {
+					h.Ops = append(h.Ops, Op{Ins: []int{i}})
+				}
+				h.Ops = append(h.Ops, Op{Stop: true})
+				hs = append(hs, h)
+			}
+		}
+	}
 	return hs
 }
 
@@ -532,13 +566,13 @@ func (w *world) recoverCheck(h History, pruning bool, im crashx.Image, admissibl
 // ---- driver -------------------------------------------------------------------------------------
 
 type caseDoc struct {
-	History History `json:"history"`
-	Pruning bool    `json:"pruning"`
-	Scale   int     `json:"scale"`
-	Mode    string  `json:"mode"` // crash | fault
-	Index   int     `json:"index"`
-	Image   map[string]string `json:"image_hex,omitempty"`
-	Admissible []int `json:"admissible,omitempty"`
+	History    History           `json:"history"`
+	Pruning    bool              `json:"pruning"`
+	Scale      int               `json:"scale"`
+	Mode       string            `json:"mode"` // crash | fault
+	Index      int               `json:"index"`
+	Image      map[string]string `json:"image_hex,omitempty"`
+	Admissible []int             `json:"admissible,omitempty"`
 }
 
 func imageHex(im crashx.Image) map[string]string {
